@@ -530,9 +530,9 @@ func main() {
 	w := gen.NewWriter(f.Out)
 	defer w.Close()
 	bin := gen.BuildIndexserver("c32")
-	proc := gen.StartLineProc(bin, "ZOEKT_VERIF_DRIVER=c32")
+	proc := gen.StartIxsLineProc(bin, "ZOEKT_VERIF_DRIVER=c32")
 	defer proc.Close()
-	scratch, err := os.MkdirTemp(gen.WorkDir(), "c32")
+	scratch, err := os.MkdirTemp(gen.IxsWorkDir(), "c32")
 	must(err)
 	defer os.RemoveAll(scratch)
 
